@@ -68,6 +68,9 @@ type Tail struct {
 	Queue     int   // capacity of the delivery queue
 	Pauses    []Pause
 	HoldLast  bool // the last line is first written without its newline, held, and completed later
+	// HoldLong: the partial last line is held for 3.3 s instead of 0.26 s, i.e. across one of the reader's 3 s
+	// housekeeping ticks
+	HoldLong bool
 }
 
 type Case struct {
@@ -129,6 +132,9 @@ func genTail(t *rapid.T) Tail {
 		}
 	}
 	tl.HoldLast = rapid.IntRange(0, 2).Draw(t, "hold") == 0
+	if rapid.Bool().Draw(t, "hl1") && rapid.Bool().Draw(t, "hl2") && rapid.Bool().Draw(t, "hl3") && rapid.Bool().Draw(t, "hl4") {
+		tl.HoldLast, tl.HoldLong = true, true
+	}
 	return tl
 }
 
@@ -395,7 +401,12 @@ func runTail(tl Tail, path string) (res tailResult) {
 		if ample {
 			waitFor(expectNow, 5*time.Second)
 		}
-		time.Sleep(260 * time.Millisecond) // more than two polls of the reader
+		if tl.HoldLong {
+			time.Sleep(3300 * time.Millisecond) // across a housekeeping tick of the reader
+			res.classes = append(res.classes, "partial-line-held-across-the-3s-tick")
+		} else {
+			time.Sleep(260 * time.Millisecond) // more than two polls of the reader
+		}
 		if ample && nGot() > expectNow {
 			mu.Lock()
 			last := got[len(got)-1]
@@ -578,7 +589,7 @@ func evalCase(c Case) lib.Outcome {
 	return o
 }
 
-const ruleText = "8 independent follows per case run concurrently; each: 1-5 pre-existing lines, 1-5 segments of 1..250 appended lines (ASCII, multi-byte, 1-2 KiB, around 4096 bytes, 5-64 KiB, empty, arbitrary bytes), the appended byte stream cut into write() calls at 0-8 generated positions plus up to 3 positions inside a multi-byte character, 0/30/120/250 ms before each write (the reader polls every 100 ms), optional filter regex, ample (10000) or tiny (1-3) delivery queue with consumer pauses, last line optionally written without its newline, held > 2 polls and completed later. Oracle: ample queue: delivered == the complete selected appended lines, byte for byte, once, in order, percentage 100, nothing pre-existing, the partial line only after completion; tiny queue: delivered is an in-order subsequence and the first line after every gap reports < 100. Non-trivial = a write boundary inside a line, a delay >= the poll interval, or lines actually dropped"
+const ruleText = "8 independent follows per case run concurrently; each: 1-5 pre-existing lines, 1-5 segments of 1..250 appended lines (ASCII, multi-byte, 1-2 KiB, around 4096 bytes, 5-64 KiB, empty, arbitrary bytes), the appended byte stream cut into write() calls at 0-8 generated positions plus up to 3 positions inside a multi-byte character, 0/30/120/250 ms before each write (the reader polls every 100 ms), optional filter regex, ample (10000) or tiny (1-3) delivery queue with consumer pauses, last line optionally written without its newline, held > 2 polls (sometimes 3.3 s, across the reader's 3 s housekeeping tick) and completed later. Oracle: ample queue: delivered == the complete selected appended lines, byte for byte, once, in order, percentage 100, nothing pre-existing, the partial line only after completion; tiny queue: delivered is an in-order subsequence and the first line after every gap reports < 100. Non-trivial = a write boundary inside a line, a delay >= the poll interval, or lines actually dropped"
 
 func TestC04Follow(t *testing.T) {
 	lib.Run(t, lib.Spec[Case]{Prop: "C04", Check: "follow", Rule: ruleText, Gen: genCase, Eval: evalCase})
